@@ -114,6 +114,19 @@ for p, q, t in [("C15", [STRESS_FINAL_Q], [STRESS_FINAL_T]), ("C16", [STRESS_MIX
     PLANS[p]["direct"] = {"quick": q, "thorough": t}
     PLANS[p]["assumptions"] = PLANS[p]["assumptions"] + ["free-running stress rounds (no scheduler) are judged only at their quiescent end state, by the same identities (TraceFinal.tla)"]
 
+# free-running sequential histories on private keys under read contention, every call judged by TLC (TraceHist.tla): reaches what
+# depends on real lock contention (try-lock style slips), which the deterministic scheduler cannot produce
+HIST_Q = {"name": "hist", "cmd": "hist --seed {seed} --rounds 10 --writers 3 --readers 5 --ops 500", "trace_spec": "TraceHist"}
+HIST_T = {"name": "hist", "cmd": "hist --seed {seed} --rounds 150 --writers 4 --readers 6 --ops 800", "trace_spec": "TraceHist"}
+for p in ["C02", "C03", "C04", "C07", "C08"]:
+    d = PLANS[p].setdefault("direct", {"quick": [], "thorough": []})
+    d["quick"] = d["quick"] + [HIST_Q]
+    d["thorough"] = d["thorough"] + [HIST_T]
+    PLANS[p]["assumptions"] = PLANS[p]["assumptions"] + ["free-running histories on private keys (no scheduler) are judged call by call against the sequential meaning of the calls (TraceHist.tla); what they exercise depends on the machine's scheduling"]
+for p in ["C07"]:
+    PLANS[p]["direct"]["quick"] = PLANS[p]["direct"]["quick"] + [STRESS_MIX_Q]
+    PLANS[p]["direct"]["thorough"] = PLANS[p]["direct"]["thorough"] + [STRESS_MIX_T]
+
 # ---- specification instances per property group (MC_inst.tla)
 def inst(cfg, text, **kw):
     d = {"module": "MC_inst", "cfg": cfg, "constants": text}
